@@ -26,7 +26,7 @@ REQUIRED_CELLS = {t: tuple("target:" + x for x in iohelp.TARGETS) + tuple("delim
                   tuple("enc:" + e for e in iohelp.ENCODINGS) + ("ids:int", "ids:str", "ids:nonascii", "ids:numstr",
                                                                "class:DynGraph", "class:DynDiGraph",
                                                                "log:unclosed-single", "log:repeated-plus",
-                                                               "src:big(>256 events)", "src:block-aligned-rows")
+                                                               "src:big(>256 events)", "src:block-aligned-rows", "src:big-non-ascii")
                   for t in ("quick", "thorough")}
 
 
@@ -218,6 +218,9 @@ def run(ctx, dn):
     rng.shuffle(grid)
     n = 0
     roundtrip(ctx, dn, rng.random() < 0.5, "int", rng.choice(iohelp.DELIMS), "utf-8", rng.choice(iohelp.TARGETS), big=True)
+    roundtrip(ctx, dn, rng.random() < 0.5, "str", rng.choice((None, ",", "|")), "utf-8", rng.choice(iohelp.TARGETS),
+              big="nonascii-big")
+    ctx.cell("src:big-non-ascii")
     if ctx.shard % 4 == 1:
         # an event log whose rows are 16 bytes each (64 KiB / 1 MiB block boundaries fall between two rows)
         roundtrip(ctx, dn, ctx.shard % 8 == 1, "int", None, "utf-8", rng.choice(("path.txt", "path.gz", "bytesio")),
